@@ -700,9 +700,12 @@ M('c09f-d23-close-overwrites-stop', 'C09', 'break', CP,
 M('c09f-guards-as-one-switch-keep', 'C09', 'keep', CP,
   '    if ((connp->out_status != HTP_STREAM_ERROR) && (connp->out_status != HTP_STREAM_STOP))\n        connp->out_status = HTP_STREAM_CLOSED;\n\n    // Call the parsers one last time, which will allow them\n    // to process the events that depend on stream closure\n    htp_connp_req_data(connp, timestamp, NULL, 0);\n    htp_connp_res_data',
   '    if (connp->out_status == HTP_STREAM_ERROR || connp->out_status == HTP_STREAM_STOP) {\n    } else {\n        connp->out_status = HTP_STREAM_CLOSED;\n    }\n\n    // Call the parsers one last time, which will allow them\n    // to process the events that depend on stream closure\n    htp_connp_req_data(connp, timestamp, NULL, 0);\n    htp_connp_res_data')
-M('repair-d16-consolidate-null-chunk', 'C01', 'keep', RQ,
-  '    if (connp->in_buf == NULL) {\n        // We do not have any data buffered; point to the current data chunk.\n        *data = connp->in_current_data + connp->in_current_consume_offset;',
-  '    if (connp->in_buf == NULL) {\n        // We do not have any data buffered; point to the current data chunk.\n        if (connp->in_current_data == NULL) {\n            *data = NULL;\n            *len = 0;\n            return HTP_OK;\n        }\n        *data = connp->in_current_data + connp->in_current_consume_offset;')
+M('c01g-d16-arithmetic-on-null-chunk-pointer', 'C01', 'break', RQ,
+  '        *data = (connp->in_current_data == NULL) ? NULL : connp->in_current_data + connp->in_current_consume_offset;',
+  '        *data = connp->in_current_data + connp->in_current_consume_offset;', 'C01.g')
+M('c01g-null-test-as-if-statement-keep', 'C01', 'keep', RQ,
+  '        *data = (connp->in_current_data == NULL) ? NULL : connp->in_current_data + connp->in_current_consume_offset;',
+  '        if (connp->in_current_data != NULL) *data = connp->in_current_data + connp->in_current_consume_offset; else *data = NULL;')
 M('repair-d3-no-umask', 'C19', 'keep', 'htp/htp_multipart.c',
   '                        mode_t previous_mask = umask(S_IXUSR | S_IRWXG | S_IRWXO);\n                        part->file->fd = mkstemp(part->file->tmpname);\n                        umask(previous_mask);',
   '                        part->file->fd = mkstemp(part->file->tmpname);')
